@@ -39,6 +39,31 @@ reg(Spec("C14", "c14_apbp.cpp", needs=("lib",),
          assumptions=["channel index < 3 (the API contract)", "0x0D8 bit 9 (S', documented as the CPU-side flag but wired to the DSP-side one) is not checked",
                       "the signal flag of the dsp->cpu direction has no register; it is checked through the interrupt rule only"]))
 
+reg(Spec("C01", "c01_diff.cpp", needs=("shim", "ref", "optable"),
+         cases={"quick": 60000, "thorough": 1500000},
+         rule="(a) differential: first word stratified over the decode-table entries (uniform entry, then uniform word of that "
+              "entry; 3/16 plain uniform words), second word, full machine state expanded deterministically from a "
+              "rapidcheck-generated 64-bit value (every RegisterState field incl. shadow banks within its hardware width, "
+              "boundary-biased accumulators/16-bit values, lp==(bcn!=0), bcn<=4, prpage=0), pokes of the cells the state points "
+              "at, pending interrupt latches; run once on the current tree and on the frozen pinned interpreter; non-trivial = "
+              "reference completes and changes something other than pc; distinct by hash(opcode, expansion, state). "
+              "(b) every vector of the project's own generator (seeded through the hook) streamed through a FIFO.",
+         assumptions=["the reference is the pinned commit's interpreter (frozen copy in /verif/ref), which upstream validated against hardware vectors",
+                      "prpage = 0 and pc <= 0x3FFF0 (beyond that the reference itself reads outside the array)",
+                      "core assembled like test_verifier (no MMIO region); mmio_base moved to 0xFFFF so only data address 0xFFFF is an MMIO ASSERT",
+                      "UnimplementedException tolerated for generator vectors, as test_verifier skips them"]))
+
+reg(Spec("C02", "c02_decode.cpp", needs=("shim", "optable"), custom="exhaustive",
+         rule="complete enumeration of all 65536 first words (worker i takes words with w % 16 == i): O1 own match count over the "
+              "repository's decode table (recording visitor) <= 1; O2 recorder / interpreter / disassembler / assembler agree on "
+              "defined-ness, handler and need for a second word; O3 execution from 4 (quick) / 16 (thorough) (second word, start "
+              "address, state) combinations: fetch log and pc advance equal the declared length, a one-word form is followed by a "
+              "fetch from A+1; O4 every bit declared Unused<> in the table text, flipped, on 32/128 generated states: same text, same "
+              "execution, and declared set == set of bits the recorder shows to be don't-care. Non-trivial = defined word; distinct = the word.",
+         assumptions=["control-transfer handlers (br, brr, call*, ret*, movpdw, mov_pc) are exempt from the pc-advance clause, not from the fetch clause",
+                      "instructions ending in Unimplemented / deliberate ASSERT make no length claim",
+                      "the test generator's view of the form is checked through its vectors in C01(b) (pc advance of every vector)"]))
+
 # Properties not (yet) claimed. Kept current by hand; every id in properties.jsonl is either in SPECS or here.
 _PENDING = "check not built yet in this round; planned with property-based testing per DESIGN.md"
 NOT_APPLICABLE = [{"property_id": "C%02d" % i, "reason": _PENDING} for i in range(1, 21) if "C%02d" % i not in SPECS]
